@@ -69,6 +69,33 @@ def task_bond_distance(pr, repo):
         ctx.oblige('Vector.rescale(L): result * |v| == v * L (contract used by OB/EQ)',
                    And(*[r.attrs[c] * n == v.attrs[c] * L for c in 'xyz']), kind='aux')
     pr.explore(ex, t_rescale, 'Vector.rescale')
+    # BD: set_bond_distance rescales the given vector to the tabulated X-H length of the element - and to 1.0, without failing, for an
+    # element that has no entry (P, Se, B, Si ... on under-coordinated atoms of truncated ligands)
+    fi_bd = repo.func(P + '.set_bond_distance')
+    pr.under_contract(fi_bd)
+    ex2 = Executor(repo)
+    seen = {}
+
+    def resc(ex_, ctx_, fi_, a, kk, so):
+        seen['L'], seen['v'] = a[0], so
+        return xyz('scaled', V0)
+    ex2.contracts['propka.vector_algebra.Vector.rescale'] = resc
+    for el in sorted(LENGTHS) + ['P', 'Se', 'B', 'Si', 'X']:
+        def t_bd(ex_, ctx, el=el):
+            v = xyz('v', V0)
+            seen.clear()
+            want = LENGTHS.get(el, 1.0)
+            try:
+                r = ex_.call_function(fi_bd, [v, el], self_obj=protonator(ex_, repo))
+            except PyRaise as e:
+                ctx.oblige('BD[%s]: set_bond_distance returns the given vector rescaled to %s A (%s), without an exception (raises %s)'
+                           % (el, want, 'tabulated' if el in LENGTHS else 'no entry: the standard value', e.exc_name), False)
+                return
+            ctx.oblige('BD[%s]: set_bond_distance returns the given vector rescaled to %s A (%s), without an exception'
+                       % (el, want, 'tabulated' if el in LENGTHS else 'no entry: the standard value'),
+                       seen.get('v') is v and isinstance(seen.get('L'), (int, float)) and abs(seen['L'] - want) < 1e-12
+                       and isinstance(r, Obj) and r.name == 'scaled')
+        pr.explore(ex2, t_bd, 'set_bond_distance %s' % el)
     r_, d_ = [R('Lr%d' % i) for i in range(3)], [R('Ld%d' % i) for i in range(3)]
     n_, L_ = R('Ln'), R('LL')
     pr.add(lemma('lemma rescale-length: r*n == d*L, n^2 == |d|^2, n > 0  |-  |r|^2 == L^2',
@@ -703,6 +730,8 @@ def task_hydrogen_names(pr, repo):
     # which input records ARE hydrogens (old-style names such as 1HD2 included): C07-EL
     from . import C07
     C07.task_element(pr, repo)
+    # --protonate-all: remove, then build on every heavy atom - and nothing else (no second bond search over the new hydrogens): C07-PI
+    C07.task_protonate(pr, repo)
 
 
 def task_bond_rule(pr, repo):
